@@ -133,9 +133,12 @@ let env_of s =
         | _ -> bad "row %s" r) (split_on ',' body) in
     mkenv rows
 
-type parsed = Unrouted | Req of env * request * string * string list  (* route, tokens *)
+type parsed = Unrouted | ErrCode of errcode | Req of env * request * string * string list  (* route, tokens *)
 
 let parse input =
+  match after "errcode " input with
+  | Some n -> (match code_of_name (Stdlib.String.trim n) with Some c -> ErrCode c | None -> bad "errcode %s" n)
+  | None ->
   let left = match split_str " ## " input with l :: _ -> l | [] -> input in
   match split_str " | " left with
   | [rq; ev] ->
@@ -166,6 +169,7 @@ let fixes : fixes =
 let model input =
   match parse input with
   | Unrouted -> "gin-3xx-4xx eff=none"
+  | ErrCode c -> show (finish [errw c] EffNone)     (* bhserrors.ErrorResponse: status_of + the code *)
   | Req (e, q, _, _) -> show (respond_gen fixes e q)
 
 (* observable -> response; None when it is not of the standard form *)
@@ -219,6 +223,7 @@ let class_of e q route toks =
 let spec input obs =
   match parse input with
   | Unrouted -> if obs = "gin-3xx-4xx eff=none" then "OK" else "FAIL unrouted.unexpected-answer " ^ obs
+  | ErrCode _ -> "OK"   (* the error table is compared with the model only; the property speaks about requests *)
   | Req (e, q, route, toks) ->
     let cls = match route with
       | "accget" -> Printf.sprintf "accget[auth=%s]" (Stdlib.List.hd (words input))
